@@ -452,6 +452,37 @@ add("v3000_star_bonds_share_dict_by_comprehension_and_written", [(V3, "        f
     (V3, "    _validate_bond_indices(bond_attrs, atom_attrs)", "    _validate_bond_indices(bond_attrs, atom_attrs)\n    for bond, attrs in bond_attrs.items():\n        attrs[\"first_atom\"] = bond[0]")],
     fires={"R-ALIAS"})
 
+_FORMULA_OLD = """    sum_formula_string = ""
+    carbon_count = element_counts.pop("C", None)
+    if carbon_count:
+        sum_formula_string += f"C{carbon_count}" if carbon_count > 1 else "C"
+        hydrogen_count = element_counts.pop("H", None)
+        if hydrogen_count:
+            sum_formula_string += f"H{hydrogen_count}" if hydrogen_count > 1 else "H"
+    for k, v in dict(sorted(element_counts.items())).items():
+        sum_formula_string += f"{k}{v}" if v > 1 else k
+
+    return sum_formula_string
+"""
+_FORMULA_BY_KEY = """    has_carbon = "C" in element_counts
+
+    def hill_order(item):
+        symbol, _ = item
+        return %s, symbol
+
+    return "".join(
+        f"{symbol}{count}" if count > 1 else symbol
+        for symbol, count in sorted(element_counts.items(), key=hill_order)
+    )
+"""
+add("formula_by_sort_key", (SER, _FORMULA_OLD, _FORMULA_BY_KEY % 'not (has_carbon and symbol in ("C", "H"))'), silent=True,
+    note="Hill order through a sort key evaluated per element symbol (local function reading a flag known per path)")
+add("formula_by_sort_key_hydrogen_always_first", (SER, _FORMULA_OLD, _FORMULA_BY_KEY % 'not (symbol in ("C", "H"))'), fires={"R-SHAPE"},
+    note="H is put first in carbon-free molecules too: `H Ac` where the grammar wants `Ac H`")
+add("attribute_blocks_sorted_by_first_component", (SER, "    for label, attrs in sorted(m.nodes(data=True)):", "    for label, attrs in sorted(m.nodes(data=True), key=lambda item: item[0]):"), silent=True)
+add("attribute_blocks_sorted_descending", (SER, "    for label, attrs in sorted(m.nodes(data=True)):", "    for label, attrs in sorted(m.nodes(data=True), key=lambda item: item[0], reverse=True):"), fires={"R-LAYOUT"})
+
+
 add("v3000_endpts_search_untested", (V3, """    if endpts_match is None:
         # silently ignore everything that has no ENDPTS (e.g. use of star atoms in polymers)
         return []
